@@ -89,6 +89,8 @@ def gen_rs(units):
             call = u.call.format(**p)
             for a in u.attrs:
                 out.append(a.format(**p))
+            for f in u.features:
+                out.append('#[cfg(feature = "%s")]' % f)
             if u.kind == "proof":
                 out.append("#[kani::proof]")
             out.append("#[kani::unwind(%d)]" % unwind)
@@ -343,6 +345,25 @@ for i, nm in enumerate(("Iter", "IterMut", "Keys", "Values", "ValuesMut", "IntoI
 for i, nm in enumerate(("Union", "Intersection", "Difference", "SymmetricDifference")):
     add("c19_debug_" + nm.lower(), "c19::h_debug_adaptor::<{N}, {M}>(%d, {A}, {B}, {C})" % i, ["C19"], [{"N": 1, "M": 1, "A": 1, "B": 1, "C": c} for c in (0, 1)] if i < 3 else [],
         ([{"N": 2, "M": 1, "A": 2, "B": 1, "C": c} for c in (0, 1)] if i in (1, 2) else []) + [{"N": 1, "M": 1, "A": 1, "B": 1, "C": 0}], unwind="max(N,M,6)+2", fn="Debug for " + nm, shape="S_fmt", timeout="30m")
+
+# ------------------------------------------------------------------ C20 serde round trip (feature serde)
+def NMA(triples):
+    return [{"N": n, "M": m, "A": a} for n, m, a in triples]
+
+
+add("c20_map_roundtrip", "c20::h_map_roundtrip::<{N}, {M}>({A})", ["C20"], NMA([(0, 0, 0), (1, 1, 1), (2, 2, 1), (2, 2, 2)]), NMA([(2, 3, 2), (3, 2, 2), (3, 3, 3), (1, 2, 0)]),
+    unwind="max(N,M)+3", features=("serde",), fn="Serialize/Deserialize for Map through bincode", shape="S_u8", timeout="40m")
+add("c20_set_roundtrip", "c20::h_set_roundtrip::<{N}, {M}>({A})", ["C20"], NMA([(0, 0, 0), (1, 1, 1), (2, 2, 1), (2, 2, 2)]), NMA([(2, 3, 2), (3, 2, 2), (3, 3, 3), (1, 2, 0)]),
+    unwind="max(N,M)+3", features=("serde",), fn="Serialize/Deserialize for Set through bincode", shape="S_u8", timeout="40m")
+
+# ------------------------------------------------------------------ C06: one representative unit per operation for the call-graph analysis
+C06_EXTRA = {"c01_insert_u8", "c01_remove_u8", "c01_retain_u8", "c01_clear_u8", "c01_drain_u8", "c07_insert_u8", "c07_remove_u8", "c07_extend_u8",
+             "c10_into_iter_u8", "c11_or_insert_with_u8", "c11_direct_remove_u8", "c13_disjoint_u8", "c14_map_eq_u8", "c14_set_eq_u8", "c15_clone_view_u8",
+             "c16_from_iter_u8", "c08_predicates", "c08_sub", "c19_debug_iter", "c19_debug_union", "c01_checked_insert_u8", "c01_insert_key_value_u8"}
+for _u in UNITS:
+    if _u.name in C06_EXTRA and "C06" not in _u.props:
+        _u.c06_only_n2 = True
+        _u.props = list(_u.props) + ["C06"]
 
 
 def units_for(prop):
